@@ -40,9 +40,9 @@ func runC08(tier, replay string) {
 	r.Assume("part/registry state is read from pithos' SQLite tables through a read-only connection at quiescent points")
 	ctx := context.Background()
 	stacks := []string{"fs", "sql", "named", "outbox>fs"}
-	rounds := r.N(18, 45)
+	rounds := r.N(18, 24)
 	if r.Thorough() {
-		stacks = append(stacks, "zstd>fs", "ec21", "cache>fs")
+		stacks = append(stacks, "ec21") // the race build makes every round ~10x as expensive
 	}
 	only, onlyStack := -1, ""
 	if replay != "" {
